@@ -358,7 +358,7 @@ class CFG:
         return False
 
     # ------------------------------------------------------------ queries
-    def reach(self, starts, avoid=(), labels=None, stop=()):
+    def reach(self, starts, avoid=(), labels=None, stop=(), edge_ok=None):
         """Nodes reachable from *starts* (inclusive) without entering *avoid* nodes.
 
         labels: optional predicate on edge label.  stop: nodes that are reached but not expanded.
@@ -375,13 +375,15 @@ class CFG:
             for m, lab in self.succ[n]:
                 if labels is not None and not labels(lab):
                     continue
+                if edge_ok is not None and not edge_ok(n, m, lab):
+                    continue
                 if m in avoid or m in seen:
                     continue
                 seen.add(m)
                 dq.append(m)
         return seen
 
-    def path(self, starts, targets, avoid=(), labels=None):
+    def path(self, starts, targets, avoid=(), labels=None, edge_ok=None):
         """A shortest path (list of nodes) from starts to any target avoiding nodes, or None."""
         avoid = set(avoid)
         targets = set(targets)
@@ -403,6 +405,8 @@ class CFG:
             for m, lab in self.succ[n]:
                 if labels is not None and not labels(lab):
                     continue
+                if edge_ok is not None and not edge_ok(n, m, lab):
+                    continue
                 if m in avoid or m in par:
                     continue
                 par[m] = n
@@ -412,15 +416,28 @@ class CFG:
     def normal_succ(self, n):
         return [m for m, lab in self.succ[n] if lab != 'exc']
 
-    def must_pass(self, starts, targets, through, labels=None):
+    def must_pass(self, starts, targets, through, labels=None, edge_ok=None):
         """None if every path from starts to targets hits a *through* node, else a witness path."""
-        return self.path(starts, targets, avoid=through, labels=labels)
+        return self.path(starts, targets, avoid=through, labels=labels, edge_ok=edge_ok)
 
-    def dominated_by(self, node, doms, labels=None):
+    def dominated_by(self, node, doms, labels=None, edge_ok=None):
         """None if every path entry -> node passes a node in *doms*; else a witness path."""
         if node in doms:
             return None
-        return self.path([self.entry], [node], avoid=doms, labels=labels)
+        return self.path([self.entry], [node], avoid=doms, labels=labels, edge_ok=edge_ok)
+
+    @staticmethod
+    def assume(cond_dump, value=True):
+        """edge_ok filter: tests whose condition dumps to cond_dump only take their `value` edge.
+
+        Used for correlated guards (`if G: set-up ... if G: tear-down`), assuming G is not changed
+        in between (callers state that assumption).
+        """
+        def ok(n, m, lab):
+            if n.kind == 'test' and lab in ('true', 'false') and astx.dump(n.ast.test) == cond_dump:
+                return (lab == 'true') == value
+            return True
+        return ok
 
     def fmt_path(self, p, limit=8):
         if p is None:
